@@ -371,6 +371,9 @@ type Runner struct {
 	Stopped bool
 	Inflight bool // an Unsubscribe was issued while messages were in flight towards that subscriber
 	nsubscribed int
+	actx    context.Context
+	acancel context.CancelFunc
+	awg     sync.WaitGroup
 }
 
 func NewRunner(c Cfg) *Runner {
@@ -404,25 +407,52 @@ func loopIdle(gs []gor) bool {
 	return countWhere(gs, true, "startQueueWorkers.func1") == 1 && countWhere(gs, false, "startQueueWorkers.func1", "bk.(*Tap).tapSend") == 0
 }
 
+func (r *Runner) dequeBased() bool {
+	switch r.Cfg.Backend {
+	case "deque", "dequeblock", "lifo":
+		return true
+	}
+	return false
+}
+
+// workersIdle: every dispatch worker is waiting inside Receive. For the channel
+// and Queue back-ends that is "parked inside tapRecv" (a worker that has popped
+// an item but not yet returned is running, hence not counted). Deque waiters
+// signal each other from inside their wait loop (two idle waiters keep waking
+// each other), so for Deque back-ends a worker counts when it is inside
+// element.wait, in any run state.
 func (r *Runner) workersIdle(gs []gor) bool {
+	if r.dequeBased() {
+		return countWhere(gs, false, "bk.(*Tap).tapRecv", "pubsub.(*element[", ").wait(") == r.Cfg.NW()
+	}
 	return countWhere(gs, true, "bk.(*Tap).tapRecv") == r.Cfg.NW()
 }
 
-// Quiesce waits until every worker is parked inside Receive, the loop is parked
+// idleNow takes one consistent reading: no send completed around a
+// stop-the-world snapshot in which the loop is parked in its select and every
+// worker waits in Receive, and the buffer was empty just before it.
+func (r *Runner) idleNow() (bool, string) {
+	n0 := r.Tap.NSends()
+	l0 := r.Tap.base.Len()
+	gs := snapshot()
+	n1 := r.Tap.NSends()
+	li, wi := loopIdle(gs), r.workersIdle(gs)
+	return n0 == n1 && l0 == 0 && li && wi, fmt.Sprintf("loopIdle=%v workersWaiting=%v len=%d sends=%d/%d", li, wi, l0, n0, n1)
+}
+
+// Quiesce waits until every worker is waiting inside Receive, the loop is parked
 // in its select and the distributor is empty; then until every receiving
 // subscriber has drained its channel and recorded what it took. A broker that
 // does not get there within Bound has stalled.
 func (r *Runner) Quiesce(what string) bool {
 	deadline := time.Now().Add(Bound)
 	for {
-		gs := snapshot()
-		if loopIdle(gs) && r.workersIdle(gs) && r.Tap.base.Len() == 0 {
+		ok, why := r.idleNow()
+		if ok {
 			break
 		}
 		if time.Now().After(deadline) {
-			gs = snapshot()
-			r.fail("C09:broker:stall:"+r.Cfg.Backend, "%s: not idle after %v: loopIdle=%v workersInReceive=%d/%d len=%d", what, Bound,
-				loopIdle(gs), countWhere(gs, true, "bk.(*Tap).tapRecv"), r.Cfg.NW(), r.Tap.base.Len())
+			r.fail("C09:broker:stall:"+r.Cfg.Backend, "%s: not idle after %v: %s", what, Bound, why)
 			return false
 		}
 		time.Sleep(100 * time.Microsecond)
@@ -497,9 +527,7 @@ func (r *Runner) Subscribe(paused bool) *Sub {
 	s.Subscribed = true
 	r.nsubscribed++
 	go s.run(paused)
-	if r.Cfg.Buf > 0 {
-		r.awaitSubCount()
-	}
+	r.awaitSubCount()
 	r.Ctl = append(r.Ctl, CtlEv{Op: "sub", I: s.Idx})
 	return s
 }
@@ -535,9 +563,10 @@ func (r *Runner) Unsubscribe(s *Sub) {
 	}
 	s.Subscribed = false
 	r.nsubscribed--
-	if r.Cfg.Buf > 0 {
-		r.awaitSubCount()
-	}
+	// Unsubscribe returns at the hand-off to the event loop (or to the buffered
+	// request channel); a Stats round trip observes that the loop has performed
+	// the Delete.
+	r.awaitSubCount()
 	r.flushSends()
 	r.Ctl = append(r.Ctl, CtlEv{Op: "unsub", I: s.Idx})
 }
@@ -592,6 +621,56 @@ func (r *Runner) Burst(pubs [][]int) func() bool {
 	}
 }
 
+// BurstAsync is Burst with one cancellable context shared by the publishers.
+func (r *Runner) BurstAsync(pubs [][]int) {
+	if r.actx == nil {
+		r.actx, r.acancel = context.WithCancel(context.Background())
+	}
+	ctx := r.actx
+	for p, l := range pubs {
+		r.awg.Add(1)
+		go func(p int, l []int) {
+			defer r.awg.Done()
+			for _, m := range l {
+				call := r.now()
+				r.B.Publish(ctx, m)
+				ok := ctx.Err() == nil
+				ret := r.now()
+				r.pmu.Lock()
+				r.Pubs = append(r.Pubs, PubRec{M: m, Pubr: 100 + p, Call: call, Ret: ret, Returned: ok})
+				r.pmu.Unlock()
+				if !ok {
+					return
+				}
+			}
+		}(p, l)
+	}
+}
+
+// WaitAsync waits for the asynchronous publishers, optionally cancelling their
+// context first; a Publish that does not return within Bound ignores its context.
+func (r *Runner) WaitAsync(cancel bool) bool {
+	if r.actx == nil {
+		return true
+	}
+	if cancel {
+		r.acancel()
+	}
+	done := make(chan struct{})
+	go func() { r.awg.Wait(); close(done) }()
+	select {
+	case <-done:
+		return true
+	case <-time.After(Bound):
+		if cancel {
+			r.fail("C09:Broker.Publish:ctx-ignored", "Publish did not return within %v of the cancellation of its own context", Bound)
+		} else {
+			r.fail("C09:broker:stall:"+r.Cfg.Backend, "a Publish did not return within %v", Bound)
+		}
+		return false
+	}
+}
+
 // Stop stops the broker (Stop, or cancellation of its parent context).
 func (r *Runner) Stop(viaParent bool) bool {
 	r.flushSends()
@@ -626,6 +705,10 @@ func (r *Runner) WaitDone() bool {
 
 // Finish ends every harness goroutine and the broker, then applies the leak oracle.
 func (r *Runner) Finish(checkLeak bool) {
+	if r.actx != nil {
+		r.acancel()
+		r.awg.Wait()
+	}
 	for _, s := range r.Subs {
 		select {
 		case <-s.done:
